@@ -278,6 +278,7 @@ func runC01(c *Check) {
 	c.MinInstances("C01-R8", 2)
 
 	ruleValidatorFacts(c, p)
+	ruleValidatorAgreesWithBuilder(c, p)
 	ruleEmptyHashConst(c, p)
 	ruleNextState(c, p)
 }
@@ -505,6 +506,101 @@ func regexpHeightArg(s string) bool {
 	}
 	rest := s[i:]
 	return strings.Contains(rest, "pkg/store.Store).Height(") && !strings.Contains(rest[:strings.Index(rest, "pkg/store.Store).Height(")+10], "+ 1")
+}
+
+// ruleValidatorAgreesWithBuilder (C01-R10): the builder leaves the chain links (previous header
+// hash, previous data hash …) empty exactly for the chain's first block, which sits at the genesis
+// InitialHeight (C01-R8). The validation shared with full nodes therefore refuses an empty chain
+// link only under a test of the height against InitialHeight: a literal height (> 1) refuses the
+// first block of every chain that starts above 1 — the block is already stored as the pending
+// block, so production fails the same way on every attempt and after every restart.
+func ruleValidatorAgreesWithBuilder(c *Check, p *Prog) {
+	rule := "C01-R10"
+	c.Doc(rule, "FS: every rejecting alternative of the shared validation that requires an empty chain link (a Last… field of the header or of the data's metadata being nil / of length 0) also carries a comparison with InitialHeight: the builder leaves the links empty exactly at the initial height (C01-R8), whatever that height is.")
+	mv := p.MustFunc(mgrM("Validate"))
+	alts := p.RejectDNF(mv, nil, corrResult(mv), 1)
+	// follow the delegation to the validator proper
+	var all [][]Fact
+	var expand func(alts []FactSet, depth int)
+	expand = func(alts []FactSet, depth int) {
+		for _, alt := range alts {
+			expanded := false
+			if depth < 3 {
+				for _, f := range alt {
+					t := f.Cond
+					if !(f.Pol && t.Op == "bin" && t.Name == "!=" && t.Args[1].Name == "nil") {
+						continue
+					}
+					x := t.Args[0]
+					if x.Op == "extract" {
+						x = x.Args[0]
+					}
+					cv, ok := x.V.(*ssa.Call)
+					if !ok || x.Op != "call" || cv.Common().StaticCallee() == nil || !p.Expandable(cv.Common().StaticCallee()) {
+						continue
+					}
+					callee := cv.Common().StaticCallee()
+					d := 0
+					if x.Ctx != nil {
+						d = x.Ctx.Depth + 1
+					}
+					expand(p.RejectDNF(callee, &Ctx{Parent: x.Ctx, Site: cv, Fn: callee, Depth: d}, corrResult(callee), 1), depth+1)
+					expanded = true
+				}
+			}
+			if !expanded {
+				all = append(all, alt)
+			}
+		}
+	}
+	expand(alts, 0)
+	n, nLink := 0, 0
+	for _, alt := range all {
+		n++
+		var link *Fact
+		hasInitial := false
+		for i, f := range alt {
+			t, pol := normFact(f.Cond, f.Pol)
+			if strings.Contains(t.String(), ".InitialHeight") {
+				hasInitial = true
+			}
+			if t.Op != "bin" || t.Name != "==" || !pol {
+				continue
+			}
+			for k := 0; k < 2; k++ {
+				a, b := t.Args[k].unconv(), t.Args[1-k].unconv()
+				if b.Op != "const" || (b.Name != "nil" && !strings.HasPrefix(b.Name, "0")) {
+					continue
+				}
+				x := a
+				if (x.Op == "call" || x.Op == "builtin") && x.Name == "len" && len(x.Args) == 1 {
+					x = x.Args[0].unconv()
+				} else if strings.HasPrefix(x.String(), "len(") && len(x.Args) == 1 {
+					x = x.Args[0].unconv()
+				}
+				if x.Op == "field" && strings.HasPrefix(x.Name, "Last") && x.Name != "LastBlockHeight" && x.Name != "LastBlockTime" {
+					link = &alt[i]
+				}
+			}
+		}
+		if link == nil {
+			continue
+		}
+		nLink++
+		inst := "validation ⟂ empty-link refused only relative to InitialHeight ⟂ " + trunc(link.String(), 60)
+		if hasInitial {
+			c.OK(rule, inst, fnName(mv), p.Pos(mv.Pos()), "the alternative also compares the height with InitialHeight", true)
+		} else {
+			c.Bad(rule, inst, fnName(mv), p.Pos(mv.Pos()), "the shared validation refuses a block whose chain link is empty ("+link.String()+") without comparing its height with the genesis InitialHeight (facts: "+strings.Join(factStrings(alt), " ; ")+"): the first block of a chain that starts above height 1 has no predecessor, is refused, stays in the store as the pending block, and production fails for good", nil)
+		}
+	}
+	if n < 5 {
+		c.Unk(rule, "validation ⟂ rejecting-alternatives", fnName(mv), "", fmt.Sprintf("anchor lost: only %d rejecting alternatives of the shared validation found", n))
+		return
+	}
+	if nLink == 0 {
+		c.OK(rule, "validation ⟂ no-empty-link-refusal", fnName(mv), p.Pos(mv.Pos()), fmt.Sprintf("none of the %d rejecting alternatives of the shared validation requires an empty chain link", n), true)
+	}
 }
 
 // ruleValidatorFacts (C01-R2).
